@@ -15,6 +15,8 @@ import (
 	plugintypes "github.com/projecteru2/core/resource/plugins/types"
 	resourcetypes "github.com/projecteru2/core/resource/types"
 
+	coretypes "github.com/projecteru2/core/types"
+
 	"verifharness/sim"
 	"verifharness/vkit"
 )
@@ -314,6 +316,10 @@ type selectCase struct {
 	Store    string        `json:"store"`
 	Got      []string      `json:"got,omitempty"`
 	Want     []string      `json:"want,omitempty"`
+	// Via: where the selection is observed. "" = the node list a capacity calculation hands to the resource manager
+	// (behind calcium's locked-nodes helper); "list-image" = the nodes ListImage reports on (the node filter's result
+	// used directly, as the image operations do)
+	Via string `json:"via,omitempty"`
 }
 
 // referenceSelection is the harness's model of the property.
@@ -417,11 +423,56 @@ func TestC21(t *testing.T) {
 		}
 	}
 
+	// the same filter through an operation that uses the filter's result directly (ListImage reports once per node
+	// it acted on; CacheImage and RemoveImage walk the same slice)
+	judgeImages := func(sc *selectCase) {
+		rec.Eval()
+		want := referenceSelection(sc.Topology, sim.Op{Pod: sc.Op.Pod, Includes: sc.Op.Includes})
+		sc.Want = want
+		ch, err := w.cl.C.ListImage(w.cl.Ctx("list-image"), &coretypes.ImageOptions{Podname: sc.Op.Pod, Nodenames: sc.Op.Includes})
+		names := []string{}
+		if err == nil {
+			for m := range ch {
+				names = append(names, m.Nodename)
+			}
+		}
+		w.cl.WaitQuiet(5 * time.Second)
+		sort.Strings(names)
+		sc.Got = names
+		cls := selectionClass(sc)
+		if err != nil {
+			if len(want) == 0 {
+				rec.Count("empty_selections", 1)
+				return
+			}
+			rec.Violation(storeName+"/list-image/"+cls+"/nothing-selected", fmt.Sprintf("ListImage failed (%v), the filter selects %v — pod %s includes %v", err, want, sc.Op.Pod, sc.Op.Includes), sc)
+			return
+		}
+		rec.Count("selections_observed_via_list_image/"+storeName, 1)
+		for i := 1; i < len(names); i++ {
+			if names[i] == names[i-1] {
+				rec.Violation(storeName+"/list-image/"+cls+"/node-selected-twice", fmt.Sprintf("ListImage acted on %v — pod %s includes %v", names, sc.Op.Pod, sc.Op.Includes), sc)
+				return
+			}
+		}
+		if strings.Join(names, ",") != strings.Join(want, ",") {
+			rec.Violation(storeName+"/list-image/"+cls+"/wrong-node-set", fmt.Sprintf("ListImage acted on %v, the filter selects %v — pod %s includes %v; nodes: %s", names, want, sc.Op.Pod, sc.Op.Includes, nodesBrief(sc.Topology)), sc)
+			return
+		}
+		if len(want) >= 2 || len(sc.Op.Includes) > len(want) {
+			rec.Nontrivial(fmt.Sprintf("%s/list-image/%v/%v", storeName, sc.Op, sc.Topology))
+		}
+	}
+
 	if env.Replay != "" {
 		if err := w.rebuild(rc.Topology, nil); err != nil {
 			t.Fatal(err)
 		}
-		judge(&rc)
+		if rc.Via == "list-image" {
+			judgeImages(&rc)
+		} else {
+			judge(&rc)
+		}
 		return
 	}
 	nt := env.Pick(16, 240) / ((env.NBatch + 1) / 2)
@@ -478,6 +529,9 @@ func TestC21(t *testing.T) {
 				op.All = true
 			}
 			judge(&selectCase{Topology: topo, Op: op, Store: storeName})
+			if len(op.Excludes) == 0 && len(op.Labels) == 0 && !op.All {
+				judgeImages(&selectCase{Topology: topo, Op: sim.Op{Kind: "list-image", Pod: op.Pod, Includes: op.Includes}, Store: storeName, Via: "list-image"})
+			}
 		}
 	}
 }
